@@ -239,6 +239,22 @@ type UnnamedKinds struct {
 	} `json:"an"`
 }
 
+// The same named struct first behind a pointer, then by value, then as an element (and the other way round): what is
+// nullable at one occurrence must not be nullable at the next.
+type PtrThenVal struct {
+	P *Inner   `json:"p"`
+	V Inner    `json:"v"`
+	L []Inner  `json:"l"`
+	Q **Inner  `json:"q"`
+	W Inner    `json:"w"`
+	M []*Inner `json:"m"`
+}
+type ValThenPtr struct {
+	V Inner  `json:"v"`
+	P *Inner `json:"p"`
+	W Inner  `json:"w"`
+}
+
 // The same type several times.
 type Repeats struct {
 	A  Inner            `json:"a"`
@@ -433,7 +449,7 @@ type BadDeep struct {
 var PlainData = []reflect.Type{
 	reflect.TypeFor[Scalars](), reflect.TypeFor[Tags](), reflect.TypeFor[Inner](), reflect.TypeFor[Pointers](), reflect.TypeFor[Containers](),
 	reflect.TypeFor[NamedKinds](), reflect.TypeFor[EmbByValue](), reflect.TypeFor[EmbByPointer](), reflect.TypeFor[EmbNested](), reflect.TypeFor[EmbUnexportedType](),
-	reflect.TypeFor[EmbTwo](), reflect.TypeFor[EmbShadowSame](), reflect.TypeFor[EmbDeep](),
+	reflect.TypeFor[EmbTwo](), reflect.TypeFor[EmbShadowSame](), reflect.TypeFor[EmbDeep](), reflect.TypeFor[PtrThenVal](), reflect.TypeFor[ValThenPtr](), reflect.TypeFor[[]PtrThenVal](),
 	reflect.TypeFor[EmbNamedTag](), reflect.TypeFor[EmbNamedTagPtr](), reflect.TypeFor[EmbDashed](), reflect.TypeFor[EmbOptsOnly](), reflect.TypeFor[EmbNonStruct](), reflect.TypeFor[EmbNonStructPtr](),
 	reflect.TypeFor[EmbMap](), reflect.TypeFor[EmbUnexportedTagged](), reflect.TypeFor[EmbTaggedHoldsEmb](), reflect.TypeFor[EmbFlattenedHoldsTagged](), reflect.TypeFor[[]EmbNamedTag](), reflect.TypeFor[map[string]*EmbNonStruct](),
 	reflect.TypeFor[Empty](), reflect.TypeFor[OnlyOmitted](), reflect.TypeFor[HoldsEmpty](), reflect.TypeFor[Described](), reflect.TypeFor[struct{}](), reflect.TypeFor[map[string]struct{}](), reflect.TypeFor[[]Empty](),
